@@ -43,7 +43,7 @@ CHECKS["C13"] = ("exploration",
    "DESIGN.md §7 C13")
 CHECKS["C12"] = ("exploration",
    "runtime monitoring: exhaustive single-cut enumeration of CONTINUE split points + random multi-cut plans vs string-equality oracle",
-   "Shared-string tables are written with an explicit split plan; for small tables every single legal cut point x both re-compression choices is enumerated (pairs in thorough), large tables get random plans and forced cuts at the record limit; every string is referenced by a uniquely placed cell so that a mis-consumed fragment shows as a shift of all later strings. Sheet name, LABEL and FORMULA+STRING values are checked in 8-bit and 16-bit storage.",
+   "Shared-string tables are written with an explicit split plan; for small tables every single legal cut point x both re-compression choices is enumerated (pairs in thorough), large tables get random plans and forced cuts at the record limit, one of them with a string of 16384-36383 rich-text runs (rgRun block over 64 KiB); every string is referenced by a uniquely placed cell so that a mis-consumed fragment shows as a shift of all later strings. Sheet name, LABEL and FORMULA+STRING values are checked in 8-bit and 16-bit storage.",
    "trusted base: the SST/CONTINUE reference encoder; string headers are never split",
    "DESIGN.md §7 C12")
 CHECKS["C03"] = ("exploration",
